@@ -329,3 +329,166 @@ def _cell(book, key):
     t, c, r = key
     rows = book[t][1]
     return rows[r][c] if r < len(rows) and c < len(rows[r]) else None
+
+
+# ---------------------------------------------------------------------------------------------------
+# the Context: which references it hands out and which members the class text defines for them
+def context_obligations(run: Run, rule: str, src, g):
+    """Context evaluated as written on a short history: a reference is handed out exactly for a registered cell, the same
+    sub-expression of one cell gets the same reference whenever it is asked for, different ones and other cells get their own,
+    and the class text defines every member a reference names -- with the code that was registered for it"""
+    import re
+    from ..finite import AV, const_av, Unknown, AbsRaise
+    ctxc = src.cls('Context')
+    loc = loc_of(ctxc.module.path, ctxc.node)
+    try:
+        pl = Pipeline(src, g)
+        ev = pl.ev
+        ctx = ev.construct('Context', [])
+        ev.obj_attrs(ctx)['_titles'] = AV('dict', items=())
+        ev.obj_attrs(ctx)['_sheets_size'] = AV('list', items=())
+
+        def cell(t, c, r):
+            return ev.construct('Cell', [const_av(t), const_av(c), const_av(r)])
+
+        def call(name, *args):
+            return ev.call_bound(ev.class_method(ctx, name), ctx, list(args))
+        c1, c2, c3 = cell(0, 0, 0), cell(0, 1, 0), cell(1, 0, 0)
+        before = call('get_cell', c1)
+        r1 = call('set_cell', c1, const_av('CODE_1'))
+        again = call('get_cell', c1)
+        other = call('get_cell', c2)
+        s_a = call('set_sub_cell', c1, const_av('SUB_A'))
+        s_a2 = call('set_sub_cell', c1, const_av('SUB_A'))
+        s_b = call('set_sub_cell', c1, const_av('SUB_B'))
+        s_a3 = call('set_sub_cell', c1, const_av('SUB_A'))
+        s_c = call('set_sub_cell', c1, const_av('SUB_C'))
+        s_b2 = call('set_sub_cell', c1, const_av('SUB_B'))
+        o_a = call('set_sub_cell', c3, const_av('SUB_A'))
+        r3 = call('set_cell', c3, const_av('CODE_3'))
+        text = call('build_class')
+    except Unknown as u:
+        raise AnalysisError(rule, f'Context: the abstraction cannot follow the context ({str(u)[:160]})')
+    except AbsRaise as e:
+        run.bad(rule, 'Context/history', f'raises:{e.exc}', f'the context raises {e.exc} on a plain history of registrations', loc=loc)
+        return
+
+    def txt(v):
+        return None if v.kind == 'none' else v.val if isinstance(v.val, str) else repr(v)
+    vals = {k: txt(v) for k, v in dict(before=before, r1=r1, again=again, other=other, s_a=s_a, s_a2=s_a2, s_b=s_b, s_a3=s_a3, s_c=s_c, s_b2=s_b2,
+                                       o_a=o_a, r3=r3).items()}
+    checks = [
+        ('unregistered-cell-has-no-reference', vals['before'] is None and vals['other'] is None,
+         f'get_cell gives {vals["before"]!r} before the cell is registered and {vals["other"]!r} for a cell that never is: a reference may only name '
+         f'a member that exists'),
+        ('registered-cell-has-one-reference', vals['r1'] is not None and vals['again'] == vals['r1'],
+         f'set_cell returned {vals["r1"]!r}, get_cell afterwards {vals["again"]!r}'),
+        ('same-sub-expression-same-reference', vals['s_a'] is not None and vals['s_a2'] == vals['s_a'] == vals['s_a3'] and vals['s_b2'] == vals['s_b'],
+         f'the sub-expression SUB_A of one cell was given {vals["s_a"]!r}, {vals["s_a2"]!r} and, after SUB_B was registered, {vals["s_a3"]!r}; SUB_B '
+         f'{vals["s_b"]!r} then {vals["s_b2"]!r}'),
+        ('different-sub-expressions-differ', len({vals['s_a'], vals['s_b'], vals['s_c'], vals['o_a'], vals['r1'], vals['r3']}) == 6,
+         f'references {[vals[k] for k in ("s_a", "s_b", "s_c", "o_a", "r1", "r3")]} must be six different members'),
+    ]
+    for sub, ok, msg in checks:
+        run.check(ok, rule, f'Context/{sub}', sub, msg, fact=sub, loc=loc)
+    if not isinstance(text.val, str):
+        raise AnalysisError(rule, 'Context.build_class: the class text is not a known text')
+    defs = dict(re.findall(r"def (\w+)\(self\):\n\s+return (.*)", text.val))
+    for key, code in (('r1', 'CODE_1'), ('r3', 'CODE_3'), ('s_a', 'SUB_A'), ('s_b', 'SUB_B'), ('s_c', 'SUB_C'), ('o_a', 'SUB_A')):
+        ref = vals[key] or ''
+        m = re.search(r"\('([^']+)'\)", ref)
+        name = m.group(1) if m else None
+        got = defs.get(name) if name else None
+        run.check(got == code, rule, f'Context/member of {key}', 'member-of-reference',
+                  f'the reference {ref!r} names the member {name!r}; the class text defines it as `{got}`, registered was `{code}`',
+                  fact=f'{name} -> {code}', loc=loc)
+
+
+# ---------------------------------------------------------------------------------------------------
+# hostile text end to end: titles, constants and formula literals come back as the texts they are
+HOSTILE_TITLES = ["It's", 'Say "hi"', '{0} {x} {}', "a'''b", 'back\\slash', 'q"""q', 'plain']
+HOSTILE_TEXTS = ["it's", 'say "hi"', '{name}', '}}', '{', "'quoted'", "'", '\\', 'a\\nb', 'line\nbreak', "''' + __import__('os').getcwd() + '''",
+                 '"); import os; ("', '%s %(x)s', 'é ü 日本', '\\x41', 'eval(1)', "'=A1+1", '{{}}', '#{x}', 'tab\there']
+# string literals of a formula cannot hold a double quote; everything else must come back unchanged
+HOSTILE_LITERALS = ["it's", '{name}', '}}', "'", '\\', 'a\\nb', "''' + 1 + '''", '%s', 'é ü', '{0}', "x'); import os; ('", 'C:\\new\\table']
+
+
+def hostile_obligations(run: Run, rule: str, src, g):
+    from ..finite import AV, const_av, Unknown, AbsRaise
+    ct = src.cls('Context')
+    loc = loc_of(ct.module.path, ct.node)
+    old = sys.getrecursionlimit()
+    sys.setrecursionlimit(max(old, 120000))
+    try:
+        rows0 = [[t] for t in HOSTILE_TEXTS]
+        rows1 = [[f'="{lit}"', f'="<"&"{lit}"&">"'] for lit in HOSTILE_LITERALS]
+        sheets = [(HOSTILE_TITLES[0], rows0), (HOSTILE_TITLES[1], rows1)] + [(t, [[1]]) for t in HOSTILE_TITLES[2:]]
+        try:
+            pl = Pipeline(src, g)
+            text, uids = pl.translate_file(sheets)
+        except Unknown as u:
+            raise AnalysisError(rule, f'hostile workbook: the abstraction cannot follow the pipeline ({str(u)[:160]})')
+        except AbsRaise as e:
+            run.bad(rule, 'hostile workbook/translation', f'raises:{e.exc}', f'translating a workbook of awkward titles and texts raises {e.exc}', loc=loc)
+            return
+        try:
+            import warnings
+            with warnings.catch_warnings():
+                warnings.simplefilter('ignore')
+                ast.parse(text)
+            parsed = True
+        except SyntaxError as e:
+            parsed = False
+            run.bad(rule, 'hostile workbook/class text', 'does-not-parse', f'the class generated for a workbook of awkward titles and texts is not '
+                    f'Python: {e.msg} at line {e.lineno}: `{(text.splitlines()[e.lineno - 1] if e.lineno else "")[:90]}`', loc=loc)
+        if not parsed:
+            return
+        run.ok(rule, 'hostile workbook/class text', 'parses', loc=loc)
+
+        def value(uid):
+            try:
+                _, res = evaluate_generated(text, uid)
+                return _plain(res)
+            except AbsRaise as e:
+                return f'raises {e.exc}'
+        try:
+            ev2, titles = _titles_of(text)
+        except Unknown as u:
+            raise AnalysisError(rule, f'hostile workbook/titles: the abstraction cannot follow the generated class ({str(u)[:120]})')
+        want_titles = {t: i for i, t in enumerate(HOSTILE_TITLES)}
+        run.check(titles == want_titles, rule, 'hostile workbook/titles', 'titles', f'the generated class reports the titles {titles}; the workbook has '
+                  f'{want_titles}', fact='titles as in the workbook', loc=loc)
+        for r, t in enumerate(HOSTILE_TEXTS):
+            try:
+                got = value(uids[(0, 0, r)])
+            except Unknown as u:
+                raise AnalysisError(rule, f'hostile constant {t!r}: the abstraction cannot follow the generated class ({str(u)[:120]})')
+            run.check(got == t, rule, f'hostile workbook/constant {t!r}', 'constant-text', f'the constant text {t!r} evaluates to {got!r}', fact='unchanged', loc=loc)
+        for r, lit in enumerate(HOSTILE_LITERALS):
+            for c, want in ((0, lit), (1, '<' + lit + '>')):
+                try:
+                    got = value(uids[(1, c, r)])
+                except Unknown as u:
+                    raise AnalysisError(rule, f'hostile literal {lit!r}: the abstraction cannot follow the generated class ({str(u)[:120]})')
+                run.check(got == want, rule, f'hostile workbook/literal {lit!r}/{c}', 'literal-text',
+                          f'the formula {"=" + chr(34) + lit + chr(34) if c == 0 else "=" + chr(34) + "<" + chr(34) + "&" + chr(34) + lit + chr(34) + "&" + chr(34) + ">" + chr(34)} '
+                          f'evaluates to {got!r}; the literal denotes {want!r}', fact='unchanged', loc=loc)
+    finally:
+        sys.setrecursionlimit(old)
+
+
+def _titles_of(text):
+    from types import SimpleNamespace
+    import warnings
+    from ..finite import evaluator_for, AV
+    from ..runtime import _collect
+    with warnings.catch_warnings():
+        warnings.simplefilter('ignore')
+        tree = ast.parse(text)
+    cls = [st for st in tree.body if isinstance(st, ast.ClassDef)][0]
+    members, _ = _collect(cls)
+    ev = evaluator_for(SimpleNamespace(members=members, cls_node=cls, module_tree=tree), max_depth=50)
+    me = ev.new_obj('ExcelInPython', {})
+    ev.call_method('__init__', [], me)
+    res = ev.call_method('get_titles', [], me)
+    return ev, ev._deep_python(res)
